@@ -6,6 +6,7 @@ package main
 import (
 	"fmt"
 	"math/rand"
+	"strings"
 
 	"github.com/storacha/go-ucanto/ucan"
 )
@@ -52,7 +53,7 @@ func irrelevantCap(r *rand.Rand, with string) CapSpec {
 	return CapSpec{Can: pick(r, []string{"debug/echo", "other/thing", "store/remove", "stor/*", "store"}), With: with, Nb: Cav{}}
 }
 
-var defectKinds = []string{"forged", "tamper-aud", "tamper-cap", "tamper-exp", "tamper-sig", "misaligned",
+var defectKinds = []string{"forged", "tamper-aud", "tamper-cap", "tamper-exp", "tamper-sig", "tamper-nbf0", "tamper-nnc0", "misaligned",
 	"foreign-resource", "other-ability", "non-owner-root", "expired", "too-early", "missing-block", "near-ability"}
 
 type chainInfo struct {
@@ -190,6 +191,10 @@ func chainWorldIn(r *rand.Rand, id int, seed int64, k chainKnobs, cast *Cast, pr
 				sp.Tamper, sp.TamperTo = "cap", carol
 			case "tamper-exp":
 				sp.Tamper = "exp"
+			case "tamper-nbf0":
+				sp.Tamper = "nbf0"
+			case "tamper-nnc0":
+				sp.Tamper = "nnc0"
 			case "tamper-sig":
 				sp.Tamper = "sig"
 			case "misaligned":
@@ -199,8 +204,13 @@ func chainWorldIn(r *rand.Rand, id int, seed int64, k chainKnobs, cast *Cast, pr
 					sp.Audience = carol
 				}
 			case "foreign-resource":
+				foreign := carol.DID.String()
+				if !strings.HasPrefix(with, "did:") {
+					// the chain is about a resource that is not a DID: the foreign one is not a DID either
+					foreign = with + "/../other"
+				}
 				for ci := range sp.Caps {
-					sp.Caps[ci].With = carol.DID.String()
+					sp.Caps[ci].With = foreign
 				}
 			case "other-ability":
 				if isInv {
